@@ -91,6 +91,9 @@ structure Hist where
   adjIn : Nat := 0
   /-- sum of WINDOW_ADJUST values put on the wire -/
   adjOut : Nat := 0
+  /-- bytes accepted from the peer and never delivered: dropped after the local `close()` or discarded by it
+      (their window is given back by a WINDOW_ADJUST of their own, fix ae15f0e) -/
+  dropped : Nat := 0
   deriving Repr, Inhabited
 
 def Hist.record (h : Hist) (pre post : Chan) (ms : List Msg) (os : List Out) : Hist :=
@@ -101,15 +104,17 @@ def Hist.record (h : Hist) (pre post : Chan) (ms : List Msg) (os : List Out) : H
            sentBytes := h.sentBytes + bufBytes (dataOf ms),
            adjOut := h.adjOut + adjustSum ms }
 
-def Hist.recordApp (h : Hist) (e : AppEv) : Hist :=
+/-- `pre` = the endpoint before the event -/
+def Hist.recordApp (h : Hist) (e : AppEv) (pre : Chan) : Hist :=
   match e with
   | .write dt bs => { h with wr := h.wr ++ [(bs, dt)] }
-  | .close => { h with appClosed := true }
+  | .close => { h with appClosed := true, dropped := h.dropped + evCredit .close pre }
   | _ => h
 
-def Hist.recordRecv (h : Hist) (m : Msg) : Hist :=
+def Hist.recordRecv (h : Hist) (m : Msg) (pre : Chan) : Hist :=
   match m with
   | .adjust n => { h with adjIn := h.adjIn + n }
+  | .data dt bs => { h with dropped := h.dropped + evCredit (.recv (.data dt bs)) pre }
   | _ => h
 
 structure Sys where
@@ -127,14 +132,14 @@ def Sys.step (s : Sys) : Event → Except Err Sys
   | .app x e =>
     match Channel.step (s.ep x) e.toEv with
     | .error err => if err.isApi then .ok s else .error err
-    | .ok r => .ok (s.apply x ((s.hist x).recordApp e) r)
+    | .ok r => .ok (s.apply x ((s.hist x).recordApp e (s.ep x)) r)
   | .deliver x =>
     match s.link x with
     | [] => .ok s
     | m :: rest =>
       match Channel.step (s.ep x) (.recv m) with
       | .error err => .error err
-      | .ok r => .ok (({ s with link := upd s.link x rest }).apply x ((s.hist x).recordRecv m) r)
+      | .ok r => .ok (({ s with link := upd s.link x rest }).apply x ((s.hist x).recordRecv m (s.ep x)) r)
 
 /-- run a list of events; `none` after a fatal error -/
 def Sys.run (s : Sys) : List Event → Except Err Sys
@@ -150,14 +155,14 @@ def Sys.stepOld (s : Sys) : Event → Except Err Sys
   | .app x e =>
     match Channel.stepOld (s.ep x) e.toEv with
     | .error err => if err.isApi then .ok s else .error err
-    | .ok r => .ok (s.apply x ((s.hist x).recordApp e) r)
+    | .ok r => .ok (s.apply x ((s.hist x).recordApp e (s.ep x)) r)
   | .deliver x =>
     match s.link x with
     | [] => .ok s
     | m :: rest =>
       match Channel.stepOld (s.ep x) (.recv m) with
       | .error err => .error err
-      | .ok r => .ok (({ s with link := upd s.link x rest }).apply x ((s.hist x).recordRecv m) r)
+      | .ok r => .ok (({ s with link := upd s.link x rest }).apply x ((s.hist x).recordRecv m (s.ep x)) r)
 
 def Sys.runOld (s : Sys) : List Event → Except Err Sys
   | [] => .ok s
@@ -165,6 +170,27 @@ def Sys.runOld (s : Sys) : List Event → Except Err Sys
     match s.stepOld e with
     | .error err => .error err
     | .ok s' => s'.runOld es
+
+/-- the composition over the endpoints as they were before fix ae15f0e (`stepPreCredit`; witness theorems only) -/
+def Sys.stepPreCredit (s : Sys) : Event → Except Err Sys
+  | .app x e =>
+    match Channel.stepPreCredit (s.ep x) e.toEv with
+    | .error err => if err.isApi then .ok s else .error err
+    | .ok r => .ok (s.apply x ((s.hist x).recordApp e (s.ep x)) r)
+  | .deliver x =>
+    match s.link x with
+    | [] => .ok s
+    | m :: rest =>
+      match Channel.stepPreCredit (s.ep x) (.recv m) with
+      | .error err => .error err
+      | .ok r => .ok (({ s with link := upd s.link x rest }).apply x ((s.hist x).recordRecv m (s.ep x)) r)
+
+def Sys.runPreCredit (s : Sys) : List Event → Except Err Sys
+  | [] => .ok s
+  | e :: es =>
+    match s.stepPreCredit e with
+    | .error err => .error err
+    | .ok s' => s'.runPreCredit es
 
 /-- configuration of one channel: what each side advertises and how its session behaves -/
 structure SideCfg where
@@ -211,14 +237,14 @@ def MSys.step (s : MSys) : MEvent → Except Err MSys
   | .app x i e =>
     match Channel.step (s.ep x i) e.toEv with
     | .error err => if err.isApi then .ok s else .error err
-    | .ok r => .ok (s.apply x i ((s.hist x i).recordApp e) r)
+    | .ok r => .ok (s.apply x i ((s.hist x i).recordApp e (s.ep x i)) r)
   | .deliver x =>
     match s.link x with
     | [] => .ok s
     | (i, m) :: rest =>
       match Channel.step (s.ep x i) (.recv m) with
       | .error err => .error err
-      | .ok r => .ok (({ s with link := upd s.link x rest }).apply x i ((s.hist x i).recordRecv m) r)
+      | .ok r => .ok (({ s with link := upd s.link x rest }).apply x i ((s.hist x i).recordRecv m (s.ep x i)) r)
 
 /-- the messages of channel `i` on a multiplexed link -/
 def chanMsgs (i : Nat) : List (Nat × Msg) → List Msg
